@@ -3,6 +3,7 @@ import GroupbyVerif.Lemmas.Reducers
 import GroupbyVerif.Bridge
 import GroupbyVerif.Lemmas.Fold
 import GroupbyVerif.Props.C04
+import GroupbyVerif.LoopBridge.NbReduce
 
 /-!
 # C20 — Stand-alone array helpers agree with their NumPy definitions
@@ -548,5 +549,37 @@ theorem reduce1d_extremum_eq_numpy (op : NanOp) (hop : op = .max ∨ op = .min) 
     reduce1d modelROps op .f arr true threads = some (specNan op .f arr) := by
   rw [reduce1d_extremum_threads op hop arr threads ht harr hne, chunkRes_eq_specNan op hop arr harr]
 
+
+/-! ### `_nb_reduce` of the current source, end to end
+
+`Generated.Loops.nb_reduce` (with `_get_first_non_null` and the dtype dispatch of its numba overload) is regenerated
+from `groupby_lib/nanops.py` / `util.py` on every run; `LoopBridge/NbReduce.lean` proves it equal to `nbReduce`. -/
+
+/-- **the translated `_nb_reduce` with null skipping is the fold of the non-null values seeded by the first of them**
+(the first cell - a null - when every cell is null), for float and integer arrays -/
+theorem source_nb_reduce_skipna (k : Kind) (hk : k ≠ .b) (f : Val → Val → Val) (a0 : Val) (rest : List Val) (d : Val) :
+    let r := Generated.Loops.nb_reduce k f (a0 :: rest).length (arrOf (a0 :: rest) d) true false d
+    r.2 = false ∧ r.1 = accOf f id a0 (nonNull k (a0 :: rest)) := by
+  intro r
+  have h := LoopBridge.nb_reduce_eq k hk f (a0 :: rest) d true none (fun _ => by simp)
+  simp only [Option.isSome_none, Option.getD_none] at h
+  refine ⟨h.1, ?_⟩
+  have h2 := h.2
+  rw [nbReduce_skipna] at h2
+  exact Option.some.inj h2
+
+/-- with an initial value (sum / count / sum of squares): the fold of the non-null values from the initial value -/
+theorem source_nb_reduce_initial (k : Kind) (hk : k ≠ .b) (f : Val → Val → Val) (l : List Val) (d init : Val) :
+    let r := Generated.Loops.nb_reduce k f l.length (arrOf l d) true true init
+    r.2 = false ∧ r.1 = (nonNull k l).foldl f init := by
+  intro r
+  have h := LoopBridge.nb_reduce_eq k hk f l d true (some init) (fun h => by cases h)
+  simp only [Option.isSome_some, Option.getD_some, nbReduce] at h
+  exact ⟨h.1, by simpa using h.2⟩
+
+/-- non-vacuity: nanmax over [NaN, 3, NaN, 7, 5] with the translated reducer -/
+example :
+    (Generated.Loops.nb_reduce .f (Generated.ReductionOps.max .f) 5 (arrOf [.nan, .num 3, .nan, .num 7, .num 5] .nan)
+      true false .nan) = (.num 7, false) := by decide
 
 end GV.C20
